@@ -778,3 +778,10 @@ def ext_parent_is_composite(I, node, selfref, args, kwargs, st):
 
 
 EXT_METHODS[('ext.ParentNode', 'is_composite')] = ext_parent_is_composite
+
+
+def ext_src_get_cur_line(I, node, selfref, args, kwargs, st):
+    yield st, st.heap[selfref.addr].fields['cur_line']
+
+
+EXT_METHODS[('ext.Src', 'get_cur_line')] = ext_src_get_cur_line
